@@ -6,6 +6,7 @@ package proxy
 import (
 	"errors"
 	"fmt"
+	"net"
 	"net/http"
 	"strings"
 	"testing"
@@ -17,6 +18,12 @@ func c07Features(cs *cvxCase, clause string) map[string]any {
 	f := map[string]any{"sub": cs.C.Sub, "clause": clause}
 	if cs.Out.Kind == "noroute" {
 		f["accesslog"] = cs.C.AccessLog
+		if len(cs.C.PageHist) > 0 {
+			f["pagehist"] = strings.Join(cs.C.PageHist, ">")
+		}
+		if len(cs.C.Flip) > 0 {
+			f["flip"] = strings.Join(cs.C.Flip, ",")
+		}
 	}
 	if len(cs.C.Routes) > 0 && cs.Out.Kind == "upstream" {
 		r := &cs.C.Routes[0]
@@ -130,6 +137,67 @@ func c07Fault(w *cvxWorld, j *cvxJob, fail func(clause, format string, a ...any)
 	return true
 }
 
+// c07NoRoute: a request without a route gets the configured status and the configured page - the one the
+// registry delivered last (history cases), one of those that were configured while the request was there (the
+// page changes while requests are answered; then the request is repeated) - complete, and no upstream is contacted.
+func c07NoRoute(w *cvxWorld, j *cvxJob, fail func(clause, format string, a ...any)) bool {
+	cs := j.cs
+	for _, p := range cs.C.PageHist {
+		if err := cvxDeliverPage(cvxPage(p)); err != nil {
+			w.errorf("case %d: the page could not be delivered: %v", j.id, err)
+			return false
+		}
+	}
+	want := []string{}
+	for _, p := range cs.Out.Pages {
+		want = append(want, cvxPage(p))
+	}
+	if len(want) == 0 {
+		want = []string{cvxPage(cs.Out.Page)}
+	}
+	repeats := 1
+	if len(cs.C.Flip) > 0 {
+		repeats = cvxFlipRepeats()
+		cs.Att = &cvxAtt{}
+	}
+	small := cs.Att.ReqBody <= 32*1024+1
+	for n := 0; n < repeats; n++ {
+		rid := j.id + int64(n)<<cvxAttemptShift
+		got, err := w.doHTTPOnce(cs, rid)
+		if err != nil && !small {
+			// a large body that nobody reads: the connection may be reset under the client's feet (net/http)
+			got, rid, err = w.doHTTP(cs, j.id)
+		}
+		if err != nil {
+			var ne net.Error
+			if strings.HasPrefix(err.Error(), "harness:") || (errors.As(err, &ne) && ne.Timeout()) || !small {
+				w.errorf("case %d: %v (%s)", j.id, err, c07Describe(cs))
+				return false
+			}
+			// nothing but fabio takes part in this answer: an exchange that breaks off is fabio's doing
+			fail("noroute-page", "no route: the exchange broke off (%v); want status %d and the complete page", err, cs.Out.Status)
+			return len(cs.C.Flip) > 0 || len(cs.C.PageHist) > 0
+		}
+		if seen := w.take(rid); seen != nil {
+			fail("upstream-contacted", "no route: the upstream must not be contacted, it received %s %s", seen.Method, seen.RequestURI)
+		}
+		if got.Status != cs.Out.Status {
+			fail("noroute-status", "no route: status %d, want the configured %d", got.Status, cs.Out.Status)
+		}
+		ok := false
+		for _, page := range want {
+			if string(got.Body) == page && got.BodyLen == int64(len(page)) {
+				ok = true
+			}
+		}
+		if !ok {
+			fail("noroute-page", "no route: body %q (%d bytes), want the configured page %q", got.Body, got.BodyLen, want)
+			break
+		}
+	}
+	return len(cs.C.Flip) > 0 || len(cs.C.PageHist) > 0
+}
+
 func c07Exec(w *cvxWorld, j *cvxJob) bool {
 	cs := j.cs
 	fail := func(clause, format string, a ...any) {
@@ -149,6 +217,9 @@ func c07Exec(w *cvxWorld, j *cvxJob) bool {
 		att.ReqBody = 1
 		cs.Att = &att
 	}
+	if cs.Out.Kind == "noroute" {
+		return c07NoRoute(w, j, fail)
+	}
 	got, rid, err := w.doHTTP(cs, j.id)
 	if errors.Is(err, errCvxTruncated) {
 		fail("response-truncated", "the answer was cut short on every one of 4 attempts: %v", err)
@@ -161,22 +232,6 @@ func c07Exec(w *cvxWorld, j *cvxJob) bool {
 	seen := w.take(rid)
 
 	switch cs.Out.Kind {
-	case "noroute":
-		if seen != nil {
-			fail("upstream-contacted", "no route: the upstream must not be contacted, it received %s %s", seen.Method, seen.RequestURI)
-		}
-		if got.Status != cs.Out.Status {
-			fail("noroute-status", "no route: status %d, want the configured %d", got.Status, cs.Out.Status)
-		}
-		page := ""
-		if cs.Out.Page != "" {
-			page = cvxPageHTML
-		}
-		if string(got.Body) != page || got.BodyLen != int64(len(page)) {
-			fail("noroute-page", "no route: body %q (%d bytes), want the configured page %q", got.Body, got.BodyLen, page)
-		}
-		return false
-
 	case "upstream":
 		if seen == nil {
 			fail("upstream-missing", "the upstream was not contacted (client got status %d)", got.Status)
